@@ -19,3 +19,24 @@ Proof. exact (@collapse_push_spec). Qed.
 Theorem C11_no_memory_after_reset : forall (R : Region) veq s l,
   snd (dflt (collapse R veq)) = None /\ snd (clear (collapse R veq) s) = None /\ snd (merge (collapse R veq) l) = None.
 Proof. intros. repeat split. Qed.
+
+(** Whole-history form.  Pushing ANY sequence [vs] (from a state whose remembered index [last] reads the item
+    [prev]; from a fresh region both are [None]) hands the inner region exactly [compress R veq prev vs]: the sequence
+    with every item dropped that equals the item remembered at that moment, and nothing else dropped -- so an equal
+    successor stores nothing new, a different one is stored, and an item is never collapsed into anything but the
+    remembered (immediately preceding stored) item. *)
+From FC Require Import Region.CollapseHistory.
+Theorem C11_history : forall (R : Region) (veq : val R -> val R -> bool) (SP : RSpec R) (H : RegionOK R)
+  (vs : list (val R)) (s : st R) (last : option (idx R)) (prev : option (val R)) (x' : st (collapse R veq)) is,
+  inv s -> link s last prev -> Forall (dom s) vs ->
+  push_all (collapse R veq) (s, last) vs = Ok (x', is) ->
+  exists js, push_all R s (compress R veq prev vs) = Ok (fst x', js).
+Proof. exact (@collapse_history). Qed.
+
+(** never-equal values (NaN-like) are all stored; a run of one reflexively-equal value is stored once *)
+Theorem C11_never_equal_all_stored : forall (R : Region) (veq : val R -> val R -> bool) prev vs,
+  (forall a b, veq a b = false) -> compress R veq prev vs = vs.
+Proof. exact (@compress_never_equal). Qed.
+Theorem C11_run_stored_once : forall (R : Region) (veq : val R -> val R -> bool) v n,
+  veq v v = true -> compress R veq None (repeat v (S n)) = [v].
+Proof. exact (@compress_run). Qed.
